@@ -9,6 +9,7 @@ from harness.drive import f2b, b2f
 
 ID = "C14"
 THEOREM_MODULES = ["JF.Props.C14"]
+COMPONENTS = ["time", "num"]
 ASSUMPTIONS = ["left operands are finite normalised times with |quotient| <= 2^52; displacements in [0, 2^40] or +inf "
                "(the property's quantifier)"]
 TRUSTED = ["Lean native Float (+ - * / floor are the hardware's IEEE-754 binary64 operations); "
